@@ -175,4 +175,7 @@ theorem seqs_distinct (oneways : List Bool) (evs : List Ev) :
     ((run (init oneways) evs).pending.map (·.1)).Nodup :=
   (inv_run _ (inv_init oneways) evs).keys
 
+/-- the tie: the classification expression was translated from the current source this run -/
+theorem tie_preds : Gen.predsTieOk = true := by decide
+
 end Rpcx.Props.C03
